@@ -3,12 +3,287 @@ package props
 import (
 	"encoding/json"
 	"fmt"
+	"strconv"
+	"strings"
+
+	eval "github.com/onheap/eval"
+
+	"verifmc/drive"
+	"verifmc/ref"
+	"verifmc/sched"
+	"verifmc/sx"
+	"verifmc/term"
 )
 
-// GenericReplay prints the recorded case; property-specific replayers
-// re-execute it against the current tree.
+// GenericReplay re-executes a recorded case against the current tree without
+// the explorer. It understands three shapes of case:
+//   - program cases (source + config + binding): compile, Eval and TryEval
+//     under the recorded configuration, and print the reference evaluations
+//     (R1 lazy, R3 total, R2 Kleene) next to them;
+//   - text cases (C06: source + notation): Compile / Dump / Eval under a
+//     panic fence;
+//   - schedule cases (C07: corpus program + threads + schedule): re-run that
+//     one interleaving.
+// It returns an error (=> VIOLATION line, exit 1) when the replayed case still
+// shows the recorded discrepancy.
 func GenericReplay(kind string, c map[string]interface{}) error {
 	b, _ := json.MarshalIndent(c, "", " ")
-	fmt.Printf("recorded case:\n%s\n", b)
-	return fmt.Errorf("no executable replayer for this case kind (%s); re-run the check to re-evaluate it", kind)
+	fmt.Printf("recorded case:\n%s\n\n", b)
+	switch {
+	case c["schedule"] != nil && c["name"] != nil:
+		return replaySchedule(c)
+	case c["binding"] != nil && c["source"] != nil:
+		return replayProgram(kind, c)
+	case c["source"] != nil && c["infix"] != nil:
+		return replayText(c)
+	}
+	return fmt.Errorf("this case kind (%s) has no executable replayer; re-run the check to re-evaluate it", kind)
 }
+
+func num(v interface{}) int {
+	if f, ok := v.(float64); ok {
+		return int(f)
+	}
+	return 0
+}
+
+func parseVal(s string) (val interface{}, available bool) {
+	available = true
+	if strings.HasPrefix(s, "UNAVAILABLE(") {
+		available = false
+		s = strings.TrimSuffix(strings.TrimPrefix(s, "UNAVAILABLE("), ")")
+	}
+	switch s {
+	case "true":
+		return true, available
+	case "false":
+		return false, available
+	case ref.ErrFetch.Error():
+		return ref.ErrFetch, available
+	}
+	if i, err := strconv.ParseInt(s, 10, 64); err == nil {
+		return i, available
+	}
+	if strings.HasPrefix(s, "[") {
+		var l []int64
+		for _, f := range strings.Fields(strings.Trim(s, "[]")) {
+			i, err := strconv.ParseInt(f, 10, 64)
+			if err != nil {
+				return s, available
+			}
+			l = append(l, i)
+		}
+		if l == nil {
+			l = []int64{}
+		}
+		return l, available
+	}
+	return s, available
+}
+
+func replayProgram(kind string, c map[string]interface{}) error {
+	src := c["source"].(string)
+	o := drive.FromBits(num(c["optbits"]))
+	o.Events, o.Undef, o.Directive = num(c["events"]), num(c["undef"]), num(c["directive"])
+	t, err := sx.Parse(stripDirectives(src))
+	if err != nil {
+		return fmt.Errorf("cannot read the recorded source back: %v", err)
+	}
+	bind := c["binding"].(map[string]interface{})
+	vars := t.Vars()
+	// variables in recorded order of appearance; types are irrelevant for replay
+	h := drive.NewHarness()
+	for _, n := range []string{"last", "vsum", "t0", "i0", "cat"} {
+		h.Register(n, ref.Customs[n])
+	}
+	cfg := h.NewConfig(vars, o)
+	e, cerr := h.Compile(cfg, drive.Source(stripDirectives(src), o), 4096)
+	if cerr != nil {
+		fmt.Printf("Compile: %v\n", cerr)
+		return fmt.Errorf("the program does not compile: %v", cerr)
+	}
+	fmt.Printf("Dump:\n%s\n\n%s\n", eval.Dump(e), eval.DumpTable(e, false))
+	f := drive.NewFetcher(h, vars, o)
+	env := &ref.Env{Vals: map[string]interface{}{}, Custom: ref.Customs}
+	kenv := &ref.Env{Vals: map[string]interface{}{}, Custom: ref.Customs}
+	anyUnavailable := false
+	f.Avail = make([]bool, len(vars))
+	for i, v := range vars {
+		s, _ := bind[v.Name].(string)
+		val, av := parseVal(s)
+		f.Vals[i] = val
+		f.Avail[i] = av
+		env.Vals[v.Name] = val
+		kenv.Vals[v.Name] = val
+		if !av {
+			anyUnavailable = true
+			kenv.Vals[v.Name] = ref.Unknown
+		}
+	}
+	avail := f.Avail
+	f.Avail = nil
+	h.Reset()
+	ev := h.Eval(e, f)
+	evTrace := append([]ref.Ev(nil), h.Trace...)
+	f.Avail = avail
+	h.Reset()
+	tv := h.TryEval(e, f)
+	r1v, r1e := env.Eval(t)
+	r1Trace := env.Trace
+	env3 := &ref.Env{Vals: env.Vals, Custom: ref.Customs}
+	r3v, r3e := env3.EvalTotal(t)
+	kv, ke := kenv.Kleene(t)
+	fmt.Printf("engine  Eval    (all variables fetched): %s\n        trace %v\n", ev, traceStr(evTrace))
+	fmt.Printf("engine  TryEval (recorded availability): %s\n", tv)
+	fmt.Printf("model   R1 lazy left-to-right          : %s\n        trace %v\n", refOut(r1v, r1e), traceStr(r1Trace))
+	fmt.Printf("model   R3 total evaluation            : %s\n", refOut(r3v, r3e))
+	fmt.Printf("model   R2 Kleene (recorded availability): %v / %v\n\n", kv, ke)
+	if ev.Panic != nil || tv.Panic != nil {
+		return fmt.Errorf("the engine panics on the recorded case")
+	}
+	// does the recorded discrepancy still show?
+	if r3e == nil && !drive.SameOutcome(ev, refOut(r3v, nil)) {
+		return fmt.Errorf("Eval returns %s although evaluating every operand succeeds with %v", ev, r3v)
+	}
+	if !o.RO && r1e == nil && !drive.SameOutcome(ev, refOut(r1v, nil)) {
+		return fmt.Errorf("Eval returns %s, left-to-right short-circuit evaluation gives %v", ev, r1v)
+	}
+	if o.OptBits() == 0 && (!drive.SameOutcome(ev, refOut(r1v, r1e)) || !ref.TraceEqual(evTrace, r1Trace)) {
+		return fmt.Errorf("unoptimised Eval (%s) differs from the documented semantics (%s) in value, error identity or trace", ev, refOut(r1v, r1e))
+	}
+	if ke == nil && kv != ref.Unknown && (tv.Err != nil || !ref.ValEqual(tv.Val, kv)) {
+		return fmt.Errorf("three-valued evaluation decides %v but TryEval returns %s", kv, tv)
+	}
+	if !anyUnavailable && ((tv.Err != nil) != (ev.Err != nil) || (tv.Err == nil && !ref.ValEqual(tv.Val, ev.Val))) {
+		return fmt.Errorf("with every variable available TryEval=%s but Eval=%s", tv, ev)
+	}
+	if tv.Err == nil && !isDNE(tv.Val) && anyUnavailable && ev.Err == nil && !ref.ValEqual(tv.Val, ev.Val) {
+		return fmt.Errorf("TryEval answers %v but Eval returns %v once the variables are fetched", tv.Val, ev.Val)
+	}
+	return nil
+}
+
+func stripDirectives(src string) string {
+	lines := strings.Split(src, "\n")
+	i := 0
+	for i < len(lines) && strings.HasPrefix(strings.TrimSpace(lines[i]), ";") {
+		i++
+	}
+	return strings.Join(lines[i:], "\n")
+}
+
+func replayText(c map[string]interface{}) error {
+	src := c["source"].(string)
+	infix, _ := c["infix"].(bool)
+	undef, _ := c["allow_undefined"].(bool)
+	w := newC06Worker()
+	for ci, cf := range c06cfgs {
+		if cf.infix != infix || cf.undef != undef {
+			continue
+		}
+		for ev := 0; ev < 3; ev++ {
+			e, err := w.h.Compile(w.cfgs[ci][ev], src, 4*len(src)+64)
+			fmt.Printf("Compile(%q) infix=%v undefined=%v events=%d: program=%v err=%v\n", src, infix, undef, ev, e != nil, err)
+			if _, isPanic := err.(*drive.PanicErr); isPanic {
+				return fmt.Errorf("Compile panics: %v", err)
+			}
+			if err != nil {
+				continue
+			}
+			if p, site := drive.Fence(func() { fmt.Println(eval.Dump(e)); eval.DumpTable(e, false) }); p != nil {
+				return fmt.Errorf("Dump/DumpTable panics at %s: %v", site, p)
+			}
+			for _, xv := range c06Values {
+				for mode := 0; mode < 3; mode++ {
+					f := &c06fetch{x: xv, u: xv, avail: mode != 2}
+					var out drive.Out
+					if mode == 0 {
+						out = w.h.Eval(e, f)
+					} else {
+						out = w.h.TryEval(e, f)
+					}
+					if out.Panic != nil {
+						return fmt.Errorf("evaluation with x=%v panics at %s: %v", xv, out.Site, out.Panic)
+					}
+				}
+			}
+		}
+	}
+	return nil
+}
+
+func replaySchedule(c map[string]interface{}) error {
+	name := c["name"].(string)
+	var p *C7Prog
+	for _, q := range C07Corpus() {
+		if q.Name == name {
+			p = q
+		}
+	}
+	if p == nil {
+		return fmt.Errorf("unknown corpus program %q", name)
+	}
+	var thr [][]int
+	for _, t := range c["threads"].([]interface{}) {
+		var calls []int
+		for _, n := range t.([]interface{}) {
+			for ci, cc := range p.Calls {
+				if cc.Name == n.(string) {
+					calls = append(calls, ci)
+				}
+			}
+		}
+		thr = append(thr, calls)
+	}
+	var prefix []int
+	for _, x := range c["schedule"].([]interface{}) {
+		prefix = append(prefix, num(x))
+	}
+	iso := make([]string, len(p.Calls))
+	for ci, cc := range p.Calls {
+		e, err := C7Compile(p)
+		if err != nil {
+			return err
+		}
+		iso[ci] = C7Do(e, p, cc, nil)
+	}
+	for rep := 0; rep < 2; rep++ { // twice: the same schedule must give the same observations
+		e, _ := C7Compile(p)
+		base := c7text(e)
+		results := make([][]string, len(thr))
+		var cur *sched.Sched
+		bodies := make([]sched.Body, len(thr))
+		for t := range thr {
+			t := t
+			results[t] = make([]string, len(thr[t]))
+			bodies[t].Run = func() {
+				for k, ci := range thr[t] {
+					cur.Point("call:" + p.Calls[ci].Name)
+					results[t][k] = C7Do(e, p, p.Calls[ci], cur.Point)
+					cur.Point("return:" + p.Calls[ci].Name)
+				}
+			}
+		}
+		s := sched.RunWith(bodies, prefix, nil, func(x *sched.Sched) { cur = x })
+		if s.Diverged != "" {
+			return fmt.Errorf("schedule replay diverged: %s", s.Diverged)
+		}
+		for _, pt := range s.Points {
+			fmt.Printf("  T%d @ %-28s -> T%d\n", pt.Thread, pt.Label, pt.Chosen)
+		}
+		if c7text(e) != base {
+			return fmt.Errorf("the compiled program was modified under this interleaving")
+		}
+		for t := range thr {
+			for k, ci := range thr[t] {
+				fmt.Printf("thread %d %s: %s\n", t, p.Calls[ci].Name, results[t][k])
+				if results[t][k] != iso[ci] {
+					return fmt.Errorf("thread %d: %s returns %s under this interleaving but %s in isolation", t, p.Calls[ci].Name, results[t][k], iso[ci])
+				}
+			}
+		}
+	}
+	return nil
+}
+
+var _ = term.TB
